@@ -21,7 +21,7 @@ import re
 from collections import Counter
 
 from fvlib.core import (CFG, CallGraph, agg_blocks, assignments, call_blocks, calls, callee_matches,
-                        callee_name, describe, guards, guard_region, short, op_place, kdesc)
+                        callee_name, comparisons, describe, describe_nf, guards, guard_region, short, op_place, kdesc)
 from fvlib.effects import direct_field_writes
 from fvlib import vm
 
@@ -104,10 +104,11 @@ def run(F, rep, tier, allfacts):
     # ---- new()
     nn, nf = F.find(r"^" + re.escape(OWN) + "::new$", ["fuel_vm"], one=True)
     rep.saw(nn)
-    fields = {}
+    fields, fields_nf = {}, {}
     for i, j, p, rv, line in assignments(nf):
         if rv[0] == "agg" and rv[1] == OWN:
             fields = dict(zip(rv[4], [describe(nf, o) for o in rv[3]]))
+            fields_nf = dict(zip(rv[4], [describe_nf(F, nf, o, depth=24) for o in rv[3]]))
     want = {"sp": "RegId::SP", "ssp": "RegId::SSP", "hp": "RegId::HP"}
     for k, reg in want.items():
         d = fields.get(k, "")
@@ -115,16 +116,28 @@ def run(F, rep, tier, allfacts):
                   "%s:%s" % (nf["file"], nf["line"]), "OwnershipRegisters::new must read %s from vm.registers[%s]; found %s" % (k, reg, d))
     d = fields.get("prev_hp", "")
     lasts = [describe(nf, args[0]) for i, c, args, *_ in calls(nf) if callee_matches(c, r"slice::<impl \[T\]>::last$")]
-    okp = bool(re.search(r"unwrap_or\(call:map\(call:last\(", d)) and any("arg:vm.frames" in x for x in lasts) and "VM_MAX_RAM" in d
+    # name-/shape-free: the value is {HP saved in the last call frame | VM_MAX_RAM when there is none} (map/unwrap_or or match)
+    dn = fields_nf.get("prev_hp", "")
+    okp = (bool(re.search(r"unwrap_or\(call:map\(call:last\(", d)) or (re.search(r"call:last\(.*arg:vm\.frames", dn) is not None and "RegId::HP" in dn)) \
+        and any("arg:vm.frames" in x for x in lasts) and "VM_MAX_RAM" in d + dn
+    d = d + " nf=" + dn
     d = d + " last-args=%s" % lasts
     rep.check(okp, "TAB-owner-new", "new:prev_hp=frames.last()", "%s:%s" % (nf["file"], nf["line"]),
               "prev_hp must come from vm.frames.last() (the direct caller's frame) with default VM_MAX_RAM; found %s" % d)
     # the closure reads registers()[HP]
-    for cn, cf in F.find(r"^" + re.escape(OWN) + r"::new::\{closure#0\}$", ["fuel_vm"]):
-        ds = [describe(cf, a) for i, c, args, *_ in calls(cf) if callee_matches(c, r"Index.*::index$") for a in args]
-        rep.check(any("RegId::HP" in x for x in ds) and any(callee_matches(c, r"CallFrame::registers$") for _, c, *_ in calls(cf)),
-                  "TAB-owner-new", "new:prev_hp-reads-frame-HP", "%s:%s" % (cf["file"], cf["line"]),
-                  "prev_hp must be frame.registers()[RegId::HP]; found index args %s" % ds)
+    # frame.registers()[RegId::HP] is read in `new` itself (match form) or in its mapping closure
+    fam_ = [(OWN + "::new", nf)] + F.find(r"^" + re.escape(OWN) + r"::new::\{closure#\d+\}$", ["fuel_vm"], required=False)
+    okr, ds = False, []
+    for cn, cf in fam_:
+        regs_ = [dest for _, c, args, dest, *_ in calls(cf) if callee_matches(c, r"CallFrame::registers$")]
+        for i, c, args, *_ in calls(cf):
+            if callee_matches(c, r"Index.*::index$"):
+                dd = [describe(cf, a) for a in args]
+                ds.append(dd)
+                if regs_ and "registers(" in dd[0] and "RegId::HP" in dd[1]:
+                    okr = True
+    rep.check(okr, "TAB-owner-new", "new:prev_hp-reads-frame-HP", "%s:%s" % (nf["file"], nf["line"]),
+              "prev_hp must be frame.registers()[RegId::HP]; found index args %s" % ds)
     rep.sample({"OwnershipRegisters::new": fields})
 
     # ---- write / memcopy dominance
@@ -205,7 +218,7 @@ def run(F, rep, tier, allfacts):
         for i, j, p, rv, line in assignments(sf))
     s2 = any(bool(re.search(r"RangeInclusive::<Idx>::contains$", n)) and a[0] == "call:new(arg:self.ssp,arg:self.sp)" and a[1] == "arg:range.end" for n, a in cs)
     alt = {}
-    for g in guards(sf):
+    for g in comparisons(sf):
         for nm, (x, y) in {"start-ssp": (r"^arg:range\.start$", r"^arg:self\.ssp$"), "start-sp": (r"^arg:range\.start$", r"^arg:self\.sp$"),
                            "end-ssp": (r"^arg:range\.end$", r"^arg:self\.ssp$"), "end-sp": (r"^arg:range\.end$", r"^arg:self\.sp$")}.items():
             reg = guard_region(g, x, y)
